@@ -88,10 +88,11 @@ def run(ctx):
     ctx.rule = ("case = (column type tree: each of the 20 scalar column classes, List/Set/Map/Tuple/UserDefinedType nested to depth 2, "
                 "canonical value from the boundary-heavy pools, one accepted Python input form per leaf (str/int/UUID/util.Date/date/"
                 "datetime/util.Time/time/ipaddress/bytes/bytearray...), protocol version 2-5); timestamps: years 1-9999, ms and us precision, "
-                "naive / fixed offset / zoneinfo DST zones / pytz-localized / datetime.date; distinct by (type, canonical value, input form); "
+                "naive / fixed offset / zoneinfo DST zones / pytz-localized / datetime.date; each value object is used 1-3 times (validate, to_database, to_python with before/after snapshots) and, for 12 % of the cases, carried through Model create / save / re-key / new-instance saves on a recording connection; distinct by (type, canonical value, input form); "
                 "non-trivial = timestamp or nested type")
     ctx.assume("a Python float is not generated for Decimal / integer columns and an int is not generated for Date columns (what CQL value it denotes is a convention, not a fact)")
     ctx.assume("a null is not generated for a list/set/map field of a user type: cqlengine models define a null collection to be the empty collection")
+    ctx.assume("Model save paths are not judged for a tuple that carries a null for a collection- or tuple-typed element: a model normalises it to the empty collection / empty tuple on assignment (Tuple.to_python), the same convention as for null collections elsewhere in cqlengine")
     ctx.assume("timestamps are not generated inside sets or as map keys (leaf differences could not be attributed); collections never contain None (cqlengine rejects it)")
     ctx.assume("the instant of an aware datetime is its wall time minus its own utcoffset() (PEP 495 fold=0 for ambiguous times)")
     ctx.assume("sub-millisecond parts are floored (the quantization DateTime.truncate_microseconds documents as 'the same way it will be in the database')")
@@ -454,6 +455,51 @@ def run(ctx):
                 return "datetime-float-truncation-1ms-high-before-epoch"
         return "datetime-wrong-instant"
 
+    def snap(x):
+        """deep, comparable snapshot of a Python value (user type instances by their field values)"""
+        if isinstance(x, UT.BaseUserType):
+            return ('udt', type(x).__name__, tuple((n, snap(getattr(x, n))) for n in x._fields))
+        if isinstance(x, (list, tuple)):
+            return (type(x).__name__,) + tuple(snap(e) for e in x)
+        if isinstance(x, (set, frozenset, util.SortedSet)):
+            return (type(x).__name__,) + tuple(sorted((snap(e) for e in x), key=repr))
+        if isinstance(x, dict):
+            return ('dict',) + tuple(sorted(((snap(a), snap(b)) for a, b in x.items()), key=repr))
+        if isinstance(x, (bytes, bytearray)):
+            return (type(x).__name__, bytes(x))
+        return (type(x).__name__, repr(x))
+
+    # a recording stand-in for the Session behind cqlengine's default connection (Model save paths only need execute())
+    from cassandra.cqlengine import connection as CQ, models
+    from cassandra.cluster import _ConfigMode
+    from cassandra.encoder import Encoder
+    import re
+    sent = []
+    mcount = [0]
+
+    class StubCluster(object):
+        _config_mode = _ConfigMode.LEGACY
+        protocol_version = 4
+
+        def register_user_type(self, *a, **kw):
+            pass
+
+        def shutdown(self):
+            pass
+
+    class StubSession(object):
+        hosts = []
+        cluster = StubCluster()
+        encoder = Encoder()
+        row_factory = None
+        default_consistency_level = None
+
+        def execute(self, query, parameters=None, *a, **kw):
+            sent.append((query, parameters))
+            return []
+
+    CQ.register_connection('c36', session=StubSession(), default=True)
+
     # ---------------------------------------------------------------- main loop
     n = ctx.scale(40000, 800000)
     budget = 40 if ctx.quick else 300
@@ -510,70 +556,198 @@ def run(ctx):
         except Exception as e:
             ctx.violation("cql-type-of-column-raises", "column.cql_type raised %s: %s" % (type(e).__name__, e), wit)
             continue
-        try:
-            dbv = col.to_database(col.validate(pyval))
-        except Exception as e:
-            mech = "to-database-raises"
-            if isinstance(e, TypeError) and 'unhashable' in str(e) and 'bytearray' in str(e) and _blob_in_hashed_position(t):
-                mech = "blob-in-set-or-map-key-unhashable-bytearray"
-            elif type(e) is Exception and "expecting a binary, got a <class 'NoneType'>" in str(e) and _null_blob_in_tuple(t, canon):
-                mech = "blob-null-inside-tuple-raises"
-            ctx.violation(mech, "%s: to_database(validate(%r)) raised %s: %s" % (col.db_type, pyval, type(e).__name__, str(e)[:200]), wit)
-            continue
-        wit["to_database"] = repr(dbv)[:300]
-        try:
-            got = bytes((own if rng.random() < 0.5 else dt).serialize(dbv, pv))
-        except Exception as e:
-            ctx.violation("database-value-not-serializable", "%s: core serialize of to_database value %r raised %s: %s" % (
-                col.db_type, dbv, type(e).__name__, str(e)[:200]), wit)
-            continue
-        ctx.count("bytes_compared", len(ref))
-        if got == ref:
-            ctx.count("encodings_equal")
-            for val, want, info in g.dt_leaves:
-                ctx.count("datetimes_exact")
-                ctx.count("datetimes_exact:" + info["zone"].split(':')[0] + "/" + info["precision"])
-            if (nested or t[0] == 'timestamp') and len(ctx.samples) < 8 and rng.random() < 0.004:
-                ctx.sample({"db_type": col.db_type, "input": repr(pyval)[:200], "to_database": repr(dbv)[:200], "bytes": got})
-            continue
-        # same CQL value in another order (sets are written in Python iteration order)?
-        try:
-            back = S.dec(t, got, pv)
-        except Exception as e:
-            ctx.violation("stored-bytes-malformed", "%s: bytes %s are not a valid %s: %s" % (col.db_type, got.hex()[:100], S.cql_name(t), e),
-                          dict(wit, driver_bytes=got))
-            continue
-        if G.canon_key(t, back) == G.canon_key(t, canon) and contains(t, ('set',)):
-            ctx.count("encodings_equal_up_to_set_order")
-            for val, want, info in g.dt_leaves:
-                ctx.count("datetimes_exact")
-            continue
-        diffs = leaf_diffs(t, canon, back)
-        wit["driver_bytes"] = got
-        wit["stored_value"] = repr(back)[:300]
-        if diffs and all(d[0][0] == 'timestamp' and isinstance(d[1], int) and isinstance(d[2], int) for d in diffs):
-            by_want = {}
-            for val, want, info in g.dt_leaves:
-                by_want.setdefault(want, (val, info))
-            for dtp, want, gotms in diffs:
-                val, info = by_want.get(want, (None, None))
-                mech = classify_ts(want, gotms, info)
-                ctx.violation(mech, "DateTime column stores %r as %d ms, its exact instant is %d ms (error %+d ms)" % (val, gotms, want, gotms - want),
-                              dict(wit, datetime=repr(val), stored_ms=gotms, exact_ms=want, info=info))
-                ctx.count("datetimes_wrong")
-            continue
-        ctx.violation("stored-value-differs-from-reference", "%s: %r is stored as %s which denotes %r, not %r" % (
-            col.db_type, pyval, got.hex()[:80], back, canon), wit)
+        def judge_dbv(dbv, w, origin, count_leaves=True):
+            """serialize a database value with the core type and compare with the reference encoding; False = reported"""
+            try:
+                got = bytes((own if rng.random() < 0.5 else dt).serialize(dbv, pv))
+            except Exception as e:
+                ctx.violation("database-value-not-serializable", "%s: core serialize of the %s value %r raised %s: %s" % (
+                    col.db_type, origin, dbv, type(e).__name__, str(e)[:200]), w)
+                return False
+            ctx.count("bytes_compared", len(ref))
+            if got == ref:
+                ctx.count("encodings_equal")
+                if count_leaves:
+                    for val_, want, info in g.dt_leaves:
+                        ctx.count("datetimes_exact")
+                        ctx.count("datetimes_exact:" + info["zone"].split(':')[0] + "/" + info["precision"])
+                    if (nested or t[0] == 'timestamp') and len(ctx.samples) < 8 and rng.random() < 0.004:
+                        ctx.sample({"db_type": col.db_type, "input": repr(pyval)[:200], "to_database": repr(dbv)[:200], "bytes": got})
+                return True
+            # same CQL value in another order (sets are written in Python iteration order)?
+            try:
+                back = S.dec(t, got, pv)
+            except Exception as e:
+                ctx.violation("stored-bytes-malformed", "%s (%s): bytes %s are not a valid %s: %s" % (col.db_type, origin, got.hex()[:100], S.cql_name(t), e),
+                              dict(w, driver_bytes=got))
+                return False
+            if G.canon_key(t, back) == G.canon_key(t, canon) and contains(t, ('set',)):
+                ctx.count("encodings_equal_up_to_set_order")
+                if count_leaves:
+                    for val_, want, info in g.dt_leaves:
+                        ctx.count("datetimes_exact")
+                return True
+            diffs = leaf_diffs(t, canon, back)
+            w = dict(w, driver_bytes=got, stored_value=repr(back)[:300])
+            if diffs and all(d[0][0] == 'timestamp' and isinstance(d[1], int) and isinstance(d[2], int) for d in diffs):
+                by_want = {}
+                for val_, want, info in g.dt_leaves:
+                    by_want.setdefault(want, (val_, info))
+                for dtp, want, gotms in diffs:
+                    val_, info = by_want.get(want, (None, None))
+                    mech = classify_ts(want, gotms, info)
+                    ctx.violation(mech, "DateTime column stores %r as %d ms, its exact instant is %d ms (error %+d ms; %s)" % (
+                        val_, gotms, want, gotms - want, origin), dict(w, datetime=repr(val_), stored_ms=gotms, exact_ms=want, info=info))
+                    ctx.count("datetimes_wrong")
+                return False
+            ctx.violation("stored-value-differs-from-reference", "%s (%s): %r is stored as %s which denotes %r, not %r" % (
+                col.db_type, origin, pyval, got.hex()[:80], back, canon), w)
+            return False
 
+        # the same Python value object goes through the column one to three times (a retried save, a re-insert under another
+        # key, a filter followed by a write): every pass must give the core driver's bytes, and neither to_database nor to_python
+        # may change the object the application holds
+        passes = rng.choice([1, 2, 2, 3])
+        failed = False
+        for pno in range(1, passes + 1):
+            pw = dict(wit, use_of_the_same_value_object=pno)
+            try:
+                val = col.validate(pyval)
+            except Exception as e:
+                ctx.violation("validate-raises", "%s: validate(%r) raised %s: %s (use %d of the same object)" % (
+                    col.db_type, pyval, type(e).__name__, str(e)[:200], pno), pw)
+                failed = True
+                break
+            before = snap(val)
+            try:
+                dbv = col.to_database(val)
+            except Exception as e:
+                mech = "to-database-raises"
+                if isinstance(e, TypeError) and 'unhashable' in str(e) and 'bytearray' in str(e) and _blob_in_hashed_position(t):
+                    mech = "blob-in-set-or-map-key-unhashable-bytearray"
+                elif type(e) is Exception and "expecting a binary, got a <class 'NoneType'>" in str(e) and _null_blob_in_tuple(t, canon):
+                    mech = "blob-null-inside-tuple-raises"
+                if pno > 1:
+                    mech = "to-database-raises-on-repeated-use-of-the-same-value"
+                ctx.violation(mech, "%s: to_database(validate(%r)) raised %s: %s (use %d of the same object)" % (
+                    col.db_type, pyval, type(e).__name__, str(e)[:200], pno), pw)
+                failed = True
+                break
+            after = snap(val)
+            if after != before:
+                ctx.violation("to-database-mutates-its-argument", "%s: to_database changed the value object it was given: %s -> %s" % (
+                    col.db_type, repr(before)[:200], repr(after)[:200]), pw)
+                failed = True
+                break
+            ctx.count("to_database_left_argument_unchanged")
+            pw["to_database"] = repr(dbv)[:300]
+            if not judge_dbv(dbv, pw, "to_database use %d" % pno, count_leaves=(pno == 1)):
+                failed = True
+                break
+            if pno > 1:
+                ctx.count("repeated_uses_of_the_same_value_object_equal")
+            if rng.random() < 0.5:
+                try:
+                    col.to_python(val)
+                except Exception as e:
+                    ctx.violation("to-python-raises", "%s: to_python(%r) raised %s: %s" % (col.db_type, val, type(e).__name__, str(e)[:200]), pw)
+                    failed = True
+                    break
+                if snap(val) != before:
+                    ctx.violation("to-python-mutates-its-argument", "%s: to_python changed the value object it was given: %s -> %s" % (
+                        col.db_type, repr(before)[:200], repr(snap(val))[:200]), pw)
+                    failed = True
+                    break
+                ctx.count("to_python_left_argument_unchanged")
+            pyval = val if rng.random() < 0.5 else pyval
+        if failed or t[0] == 'counter' or rng.random() > 0.12:
+            continue
+        if _null_composite_in_tuple(t, canon):
+            ctx.count("model_path_skipped(null collection or tuple inside a tuple)")
+            continue
+        # ---- the same value object through Model save paths: create, save again, re-insert under another key
+        try:
+            mcount[0] += 1
+            M = type('M36_%d_%d' % (ctx.worker or 0, mcount[0]), (models.Model,), {'__keyspace__': 'ks36', 'k': C.Integer(primary_key=True), 'c': col})
+        except Exception as e:
+            ctx.violation("model-definition-raises", "a model with a %s column raised %s: %s" % (col.db_type, type(e).__name__, e), wit)
+            continue
+        steps = ['create'] + rng.sample(['save', 'rekey', 'rekey', 'new_instance', 'new_instance'], rng.randint(1, 3))
+        inst = None
+        for sno, step in enumerate(steps):
+            del sent[:]
+            try:
+                if step == 'create':
+                    inst = M.create(k=1, c=pyval)
+                elif step == 'save':
+                    inst.save()
+                elif step == 'rekey':
+                    inst.k = inst.k + 1
+                    inst.save()
+                else:
+                    inst = M(k=7, c=pyval)
+                    inst.save()
+            except Exception as e:
+                ctx.violation("model-save-raises", "%s: %s of a model holding %r raised %s: %s (step %d: %s)" % (
+                    col.db_type, step, pyval, type(e).__name__, str(e)[:200], sno, steps), dict(wit, steps=steps))
+                break
+            dbv = missing = object()
+            for q, prm in sent:
+                qs = q.query_string
+                mm = re.match(r'INSERT INTO \S+ \((.*?)\) VALUES \((.*)\)', qs)
+                if mm:
+                    names_ = [x.strip().strip('"') for x in mm.group(1).split(',')]
+                    marks = re.findall(r'%\((\d+)\)s', mm.group(2))
+                    if 'c' in names_ and len(marks) == len(names_):
+                        dbv = prm[marks[names_.index('c')]]
+                    continue
+                mm = re.search(r'SET .*?"c" = %\((\d+)\)s', qs) if qs.startswith('UPDATE') else None
+                if mm:
+                    dbv = prm[mm.group(1)]
+            if dbv is missing:
+                # an unchanged instance saves nothing; a null / empty value is left out of the INSERT; collections are updated by difference
+                ctx.count("model_steps_without_a_plain_assignment_of_the_column")
+                continue
+            pw = dict(wit, model_step="%d:%s of %s" % (sno, step, steps), to_database=repr(dbv)[:300])
+            if not judge_dbv(dbv, pw, "model %s" % step, count_leaves=False):
+                break
+            ctx.count("model_saves_equal")
+            ctx.count("model_saves_equal:" + step)
+
+    CQ.unregister_connection('c36')
     ctx.floor_distinct = 8000 if ctx.quick else 150000
     fl = {"encodings_equal": 15000, "nested_cases": 5000, "datetimes_exact": 6000, "datetimes_exact:naive/ms": 1500,
-          "datetimes_exact:naive/us": 500, "datetimes_exact:fixed/ms": 300}
+          "datetimes_exact:naive/us": 500, "datetimes_exact:fixed/ms": 300,
+          "to_database_left_argument_unchanged": 15000, "to_python_left_argument_unchanged": 5000,
+          "repeated_uses_of_the_same_value_object_equal": 8000, "model_saves_equal": 3000, "model_saves_equal:rekey": 300,
+          "model_saves_equal:new_instance": 300}
     for name in ('Text', 'Ascii', 'Integer', 'TinyInt', 'SmallInt', 'BigInt', 'VarInt', 'Counter', 'DateTime', 'Date', 'Time', 'Duration',
                  'UUID', 'TimeUUID', 'Boolean', 'Float', 'Double', 'Decimal', 'Blob', 'Inet', 'List', 'Set', 'Map', 'Tuple', 'UserDefinedType'):
         fl["column:" + name] = 100
     if have_zoneinfo:
         fl["datetimes_exact:zoneinfo/ms"] = 300
     ctx.floor_counters = fl
+
+
+def _null_composite_in_tuple(t, v):
+    """True when some tuple in the canonical value carries a null for an element of list/set/map/tuple type."""
+    from spec import cqlcodec as S
+    t = S.strip(t)
+    k = t[0]
+    if v is None or k in S.SCALARS:
+        return False
+    if k in ('list', 'set'):
+        return any(_null_composite_in_tuple(t[1], e) for e in v)
+    if k == 'map':
+        return any(_null_composite_in_tuple(t[1], a) or _null_composite_in_tuple(t[2], b) for a, b in v)
+    if k == 'tuple':
+        fts = list(t[1:])
+        vals = list(v) + [None] * (len(fts) - len(v))
+        return any((S.strip(ft)[0] in ('list', 'set', 'map', 'tuple') and fv is None and i < len(v)) or _null_composite_in_tuple(ft, fv)
+                   for i, (ft, fv) in enumerate(zip(fts, vals)))
+    if k == 'udt':
+        return any(_null_composite_in_tuple(ft, fv) for (_, ft), fv in zip(t[3], v))
+    return False
 
 
 def _null_blob_in_tuple(t, v):
